@@ -17,7 +17,7 @@
    see notes/C10.md for what is still open. *)
 From Coq Require Import List ZArith.
 From RtoscV Require Import Pretty.Tok Pretty.FloatFmt Pretty.PrintModel Pretty.ScanModel
-  Pretty.PrettyProofs Pretty.FloatProofs Pretty.SymBlobProofs Pretty.RangeProofs Pretty.RunProofs Pretty.ListProofs Pretty.ArrayProofs Pretty.PrettyRegress.
+  Pretty.PrettyProofs Pretty.FloatProofs Pretty.SymBlobProofs Pretty.RangeProofs Pretty.RunProofs Pretty.ListProofs Pretty.ArrayProofs Pretty.MixedProofs Pretty.PrettyRegress.
 Import ListNotations.
 Local Open Scope Z_scope.
 
@@ -165,6 +165,28 @@ Theorem C10_array_nonvacuous : forall o,
     (VArr 105 (Z.of_nat (length example_elems)) :: example_elems) 0
   = Some ([91; 49; 32; 46; 46; 46; 32; 54; 32; 57; 32; 54; 120; 56; 93], w).
 Proof. exact roundtrip_array_example. Qed.
+
+(* ARRAYS AMONG OTHER VALUES (recogniser half): a text made of items (values,
+   "NxV", range tails - as in C10_compressed_reads_partial) and non-empty arrays
+   "[" items "]" in any order, separated by any white space, is counted and
+   scanned to the expected slots, PROVIDED NO RANGE TAIL "b ... c" DIRECTLY
+   FOLLOWS AN ARRAY (m_ok with the context None = "the element before was an
+   array" demands is_tail = false).  That exclusion is the finding class
+   range-after-array, the predicate of its classifier (a closing bracket, white
+   space, one token, white space, "..."): the checker looks for the tail's left
+   neighbour in the TEXT of the array (and finds an ellipsis inside it), the
+   scanner in the slots before. *)
+Theorem C10_mixed_reads_partial : forall (dec2f dec2d : list Z -> Z) ms T,
+  mseq dec2f dec2d (Some None) ms T ->
+  count_printed_arg_vals dec2f dec2d T = Ok (true, Z.of_nat (length (mslots ms))) /\
+  scan_arg_vals dec2f dec2d T (Z.of_nat (length (mslots ms))) = Ok (mslots ms, []).
+Proof. exact mseq_reads. Qed.
+
+(* non-vacuity: "[1 ... 6 9] true 3 ... 7" *)
+Theorem C10_mixed_nonvacuous : forall (dec2f dec2d : list Z -> Z),
+  exists T, mseq dec2f dec2d (Some None) ex_mixed T /\
+            T = [91; 49; 32; 46; 46; 46; 32; 54; 32; 57; 93; 32; 116; 114; 117; 101; 32; 51; 32; 46; 46; 46; 32; 55].
+Proof. exact mixed_example. Qed.
 
 (* the text forms the printer uses with compression on - values, repetitions
    "NxV", range tails "b ... c" (the explicit form "a b ... c" is the value a
